@@ -208,6 +208,14 @@ impl InstructionGenerator {
         }
     }
 
+    /// UNTIL continues while the condition is zero (any other value ends the loop,
+    /// it does not have to be -1): replaces A with A = 0.
+    fn generate_is_zero(&mut self, pos: Position) {
+        self.push(Instruction::CopyAToB, pos);
+        self.push_load(Variant::VInteger(0), pos);
+        self.push(Instruction::Equal, pos);
+    }
+
     fn generate_do_loop_top(
         &mut self,
         condition: ExpressionPos,
@@ -218,7 +226,7 @@ impl InstructionGenerator {
         self.label("do", pos);
         self.generate_expression_instructions(condition);
         if kind == DoLoopConditionKind::Until {
-            self.push(Instruction::NotA, pos);
+            self.generate_is_zero(pos);
         }
         self.jump_if_false("loop", pos);
         self.visit(statements);
@@ -239,7 +247,7 @@ impl InstructionGenerator {
         self.mark_statement_address(); // to be able to resume on error
         self.generate_expression_instructions(condition);
         if kind == DoLoopConditionKind::Until {
-            self.push(Instruction::NotA, pos);
+            self.generate_is_zero(pos);
         }
         self.jump_if_false("loop", pos);
         self.jump("do", pos);
